@@ -375,6 +375,56 @@ func (c *ctx) children(ps []Pat, stanzaXML string, cons []int, class string) {
 	}
 }
 
+// iqDefault sends one IQ of the given type with payload n through a real session whose
+// handler is the multiplexer: either a registered handler runs, or the fallback answers
+// (service-unavailable error with the request's id) or nothing is written.
+func (c *ctx) iqDefault(ps []Pat, typ string, n xml.Name, class string) {
+	r := c.r
+	ns := c08.NSClient
+	line := strings.Join([]string{"iqdefault", field(typ), encName(n), encPats(ps)}, " ")
+	lines := []string{r.Prop + " " + line}
+	rec := &recorder{}
+	m, p := build(ns, ps, rec)
+	if p != "" {
+		r.Line(line, "BUILD-PANIC")
+		return
+	}
+	pl := "<" + n.Local + ` xmlns="` + n.Space + `"/>`
+	body := []byte(`<iq type="` + typ + `" id="d1" from="a@example.org/r">` + pl + `</iq></stream:stream>`)
+	res := c08.Serve(ns, c08.LocalJID, c08.RemoteJID, body, nil, func(xmpp.Handler) xmpp.Handler { return m })
+	if res.Panic != "" || res.Stall {
+		r.Line(line, "PANIC-OR-STALL")
+		r.Fail("no-panic", "panic", lines, res.Panic)
+		return
+	}
+	els, _, _ := c08.Written(ns, res.Out)
+	obs := "nothing"
+	switch {
+	case len(rec.calls) > 0:
+		obs = "h=" + rec.calls[0].pat.Enc()
+	case len(els) > 0:
+		obs = "wrote"
+		if len(els) == 1 && els[0].Local == "iq" && els[0].Typ == "error" && els[0].ID == "d1" && els[0].SU && els[0].To == "a@example.org/r" {
+			obs = "fallback"
+		}
+	}
+	r.Line(line, obs)
+	want := best(ps, "i", typ, n)
+	r.Case(line, true, class+"/iqdefault/"+strings.SplitN(obs, "=", 2)[0])
+	request := typ != "result" && typ != "error"
+	switch {
+	case want != nil && (len(rec.calls) != 1 || rank(rec.calls[0].pat.Name) != rank(want.Name)):
+		r.Fail("most-specific", "iq-dispatch", lines, fmt.Sprintf("observed %s, want the handler of %s", obs, want.Enc()))
+	case want != nil && !request && len(els) > 0:
+		// (for a request the session itself answers when the marker handler wrote nothing: C07)
+		r.Fail("defaults", "reply-besides-handler", lines, "an element was written although a handler ran for a reply IQ")
+	case want == nil && request && obs != "fallback":
+		r.Fail("defaults", "request-unanswered", lines, fmt.Sprintf("unhandled %s IQ: observed %s, want one service-unavailable error", typ, obs))
+	case want == nil && !request && obs != "nothing":
+		r.Fail("defaults", "reply-answered", lines, fmt.Sprintf("unhandled %s IQ: observed %s, want nothing", typ, obs))
+	}
+}
+
 func (c *ctx) register(ps []Pat, p Pat, mode string) {
 	r := c.r
 	nilH := mode != "ok"
@@ -563,6 +613,22 @@ func Run(r *common.Run) error {
 			}
 		}
 	}
+	// the defaults: IQs of every type against every subset of the four shapes of the payload
+	// name (patterns of the IQ's own type, and of another type as distractors)
+	for ti, typ := range typesOf["i"] {
+		for mask := 0; mask < 16; mask++ {
+			var ps []Pat
+			for i, s := range shapes {
+				if mask&(1<<i) != 0 {
+					ps = append(ps, Pat{Kind: "i", Typ: typ, Name: s})
+				} else if (i+ti)%2 == 0 {
+					ps = append(ps, Pat{Kind: "i", Typ: typesOf["i"][(ti+1)%4], Name: s})
+				}
+			}
+			c.iqDefault(ps, typ, q, "exhaustive")
+		}
+	}
+
 	// registration: duplicate, nil, nil func, valid
 	for _, kind := range []string{"t", "i", "m", "p"} {
 		typ := typesOf[kind][0]
@@ -710,6 +776,15 @@ func (c *ctx) replay(lines []string) error {
 				return err
 			}
 			c.lookup(ps, f[2], unfield(f[3]), decName(f[4]), "replay")
+		case "iqdefault":
+			if len(f) != 5 {
+				continue
+			}
+			ps, err := decPats(f[4])
+			if err != nil {
+				return err
+			}
+			c.iqDefault(ps, unfield(f[2]), decName(f[3]), "replay")
 		case "register":
 			if len(f) != 5 {
 				continue
